@@ -664,6 +664,7 @@ func rdcDecimal(w *World) {
 
 	// ---------------- RDC2: exactness flag
 	rdc2ExactFlag(w, conv, results)
+	rdc4ConstantResults(w, conv)
 }
 
 func sample(ns []int64) string {
@@ -1121,3 +1122,207 @@ func isFloatArith(info *types.Info, b *ast.BinaryExpr) bool {
 }
 
 var _ = cfg.New
+
+// RDC4 (C39): a constant result is decided from a bound on the right side. A decimal with D
+// mantissa digits and exponent field z.exp has a magnitude in [10^(z.exp-1), 10^z.exp); the
+// "integer-mantissa exponent" z.exp - z.digits() only bounds it from below. A shortcut that sets
+// the result to 0 (or ±Inf) under a condition on an exponent is correct only if the condition
+// forces *every* decimal that satisfies it below 2^-1075 (above 2^1024). For each conditional
+// constant result in Float64 the path condition (plus the negated conditions of later sibling
+// `if … { v = … }` overrides) is evaluated over a finite model of (z.exp, digit count), with local
+// variables such as `exp := int(z.exp) - z.digits()` expanded from their single definition and
+// unknown boolean atoms enumerated; a model point that satisfies it with z.exp > -324 (zero) or
+// z.exp < 310 (infinity) is a numeral whose nearest binary64 is not that constant — e.g. a tiny
+// value written with many digits.
+func rdc4ConstantResults(w *World, conv *FuncRef) {
+	w.rule("RDC4")
+	info := conv.Pkg.TypesInfo
+	res := conv.Decl.Type.Results
+	if res == nil || len(res.List) == 0 || len(res.List[0].Names) == 0 {
+		return
+	}
+	vName := res.List[0].Names[0].Name
+	parents := parentMap(conv.Decl)
+	constKind := func(e ast.Expr) string {
+		e = ast.Unparen(e)
+		if tv, ok := info.Types[e]; ok && tv.Value != nil {
+			if r, ok := constToRat(tv.Value); ok && r.Sign() == 0 {
+				return "0"
+			}
+			return ""
+		}
+		if c, ok := e.(*ast.CallExpr); ok {
+			if f := callee(info, c); f != nil && f.Pkg() != nil && f.Pkg().Path() == "math" && f.Name() == "Inf" {
+				return "Inf"
+			}
+		}
+		return ""
+	}
+	type site struct {
+		node ast.Node
+		kind string
+	}
+	var sites []site
+	ast.Inspect(conv.Decl.Body, func(x ast.Node) bool {
+		if _, ok := x.(*ast.FuncLit); ok {
+			return false
+		}
+		switch s := x.(type) {
+		case *ast.AssignStmt:
+			if len(s.Lhs) == len(s.Rhs) {
+				for i, l := range s.Lhs {
+					if id, ok := l.(*ast.Ident); ok && id.Name == vName {
+						if k := constKind(s.Rhs[i]); k != "" {
+							sites = append(sites, site{s, k})
+						}
+					}
+				}
+			}
+		case *ast.ReturnStmt:
+			if len(s.Results) >= 1 {
+				if k := constKind(s.Results[0]); k != "" {
+					sites = append(sites, site{s, k})
+				}
+			}
+		}
+		return true
+	})
+	digitsVals := []int64{1, 2, 5, 17, 20, 40, 400}
+	nChecked := 0
+	for _, st := range sites {
+		conds := pathConds(info, parents, st.node)
+		// later sibling overrides of v
+		if list, idx := containingList(parents, st.node); idx >= 0 {
+			for j := idx + 1; j < len(list); j++ {
+				ifs, ok := list[j].(*ast.IfStmt)
+				if !ok || ifs.Else != nil {
+					break
+				}
+				assignsV := false
+				for _, b := range ifs.Body.List {
+					if as, ok := b.(*ast.AssignStmt); ok {
+						for _, l := range as.Lhs {
+							if id, ok := l.(*ast.Ident); ok && id.Name == vName {
+								assignsV = true
+							}
+						}
+					}
+				}
+				if !assignsV {
+					break
+				}
+				conds = append(conds, condLit{ifs.Cond, false})
+			}
+		}
+		// only conditions that talk about an exponent make the result "decided from a bound"
+		mentionsExp := false
+		localDefs := map[string]ast.Expr{}
+		for _, c := range conds {
+			ast.Inspect(c.e, func(y ast.Node) bool {
+				switch z := y.(type) {
+				case *ast.SelectorExpr:
+					if z.Sel.Name == "exp" {
+						mentionsExp = true
+					}
+				case *ast.Ident:
+					if v, ok := info.Uses[z].(*types.Var); ok && !v.IsField() && v.Pkg() == conv.Pkg.Types && v.Parent() != v.Pkg().Scope() {
+						// single definition
+						var rhs ast.Expr
+						nDef := 0
+						ast.Inspect(conv.Decl.Body, func(q ast.Node) bool {
+							if as, ok := q.(*ast.AssignStmt); ok && len(as.Lhs) == len(as.Rhs) {
+								for i, l := range as.Lhs {
+									if id, ok := l.(*ast.Ident); ok && (info.Defs[id] == v || info.Uses[id] == v) {
+										nDef++
+										rhs = as.Rhs[i]
+									}
+								}
+							}
+							return true
+						})
+						if nDef == 1 {
+							localDefs[z.Name] = rhs
+							ast.Inspect(rhs, func(r ast.Node) bool {
+								if s, ok := r.(*ast.SelectorExpr); ok && s.Sel.Name == "exp" {
+									mentionsExp = true
+								}
+								return true
+							})
+						}
+					}
+				}
+				return true
+			})
+		}
+		if !mentionsExp {
+			continue
+		}
+		nChecked++
+		ce := &condEval{info: info, vars: map[string]int64{}, atoms: map[string]bool{}, missing: map[string]bool{}}
+		setVars := func(zexp, D int64) bool {
+			ce.vars = map[string]int64{"z.exp": zexp, "z.digits()": D}
+			for name, rhs := range localDefs {
+				v, ok := ce.intVal(info, rhs)
+				if !ok {
+					return false
+				}
+				ce.vars[name] = v
+			}
+			return true
+		}
+		if !setVars(0, 1) {
+			w.undecided(fmt.Sprintf("constant-result|%s|%s", conv.Name, w.pos(st.node.Pos())), st.node.Pos(), "a local variable of the path condition cannot be expanded")
+			continue
+		}
+		for _, c := range conds {
+			ce.evalLit(c)
+		}
+		var atoms []string
+		for a := range ce.missing {
+			atoms = append(atoms, a)
+		}
+		sort.Strings(atoms)
+		if len(atoms) > 8 {
+			atoms = atoms[:8]
+		}
+		witness := ""
+		for zexp := int64(-420); zexp <= 420 && witness == ""; zexp++ {
+			justified := (st.kind == "0" && zexp <= -324) || (st.kind == "Inf" && zexp >= 310)
+			if justified {
+				continue
+			}
+			for _, D := range digitsVals {
+				if !setVars(zexp, D) {
+					continue
+				}
+				for mask := 0; mask < 1<<len(atoms); mask++ {
+					ce.atoms = map[string]bool{}
+					for i, a := range atoms {
+						ce.atoms[a] = mask&(1<<i) != 0
+					}
+					all := true
+					for _, c := range conds {
+						if ce.evalLit(c) == triFalse {
+							all = false
+							break
+						}
+					}
+					if all {
+						witness = fmt.Sprintf("a numeral with %d mantissa digits and magnitude in [1e%d, 1e%d) (integer-mantissa exponent %d)", D, zexp-1, zexp, zexp-D)
+						break
+					}
+				}
+				if witness != "" {
+					break
+				}
+			}
+		}
+		key := fmt.Sprintf("constant-result|%s|%s under %s", conv.Name, st.kind, types.ExprString(conds[0].e))
+		if witness == "" {
+			w.ok(key, st.node.Pos(), "every decimal that satisfies the path condition is out of the binary64 range on that side")
+		} else {
+			w.violation(key, st.node.Pos(), "the result is set to "+st.kind+" under a condition that does not force the value out of range: "+witness+" satisfies it, but its nearest binary64 value is not "+st.kind+" — the integer-mantissa exponent bounds the magnitude from below only, so a small value written with many digits is flushed to zero")
+		}
+	}
+	w.info("constant-result|sites", conv.Decl.Pos(), fmt.Sprintf("%d constant-result sites in Float64, %d of them conditional on an exponent", len(sites), nChecked))
+}
